@@ -193,6 +193,9 @@ def _field_cases(part: str, tier: str):
             yield {"dm": dm}
         for az, za in itertools.product([0.0, 0.1, 359.9, 123.456789], [0.0, 0.1, 89.999, 45.0]):
             yield {"azimuth": az, "zenith": za}
+        # legal doubles outside the principal range: the file stores a plain number, nothing may wrap or clip it
+        for az, za in [(-12.5, -5.0), (412.25, 120.0), (360.0, 90.0), (-360.0, 180.0), (720.5, -0.25)]:
+            yield {"azimuth": az, "zenith": za}
         # the same physical angles given in other units
         for unit, az, za in (("rad", 2.5, 0.75), ("arcmin", 600.0, 90.5), ("hourangle", 3.25, 1.5)):
             yield {"azimuth": az, "zenith": za, "angle_unit": unit}
